@@ -30,6 +30,12 @@ def match(prop, violation, extra=None):
   for k in load():
     if k.get("status") != "open" or k.get("property") != prop:
       continue
+    if k.get("witness"):
+      # the finding is identified by its scripted history and clause
+      if violation.get("tid") == "script:%s-0" % k["witness"] and violation.get("clause") == k.get("clause"):
+        return k
+      if not k.get("matcher"):
+        continue
     fn = (extra or {}).get(k.get("matcher")) or MATCHERS.get(k.get("matcher"))
     if fn is None:
       continue
@@ -116,3 +122,15 @@ def _undo_raises_summary(v):
     return False
   uas = ctx.get("of_uas") or []
   return len(uas) >= 2 and any(u and u[0] in SUMMARY_RESTRUCTURING for u in uas)
+
+
+@matcher("undo_renametable_lookup_keyerror")
+def _undo_renametable_keyerror(v):
+  """
+  ApplyUndoActions of a bundle containing RenameTable raises KeyError from docactions.RenameTable
+  (copy_from_column of a '#lookup#' helper column that the re-created table does not have).
+  """
+  ctx = v.get("context", {})
+  if ctx.get("tag") != "undo" or ctx.get("exc") != "KeyError":
+    return False
+  return any(u and u[0] == "RenameTable" for u in (ctx.get("of_uas") or []))
